@@ -29,6 +29,12 @@ CLONE_PROBE = [
     {'source': 'member', 'kwargs': [['parent', 'b'], ['estimate', -1]]},           # the clone of a member carries its id: rejected at once
     {'source': 'free', 'kwargs': [['parent', 'p'], ['estimate', 3]]},              # control: accepted
     {'source': 'free', 'kwargs': [['estimate', -1], ['parent', 'p']]},             # control: rejected before anything is set
+    # (round Y/Z) the tasks named by the call are instances of a user subclass of Task
+    {'source': 'free', 'kwargs': [['parent', 'p'], ['predecessors', ['p']]], 'subclass': True},
+    {'source': 'free', 'kwargs': [['parent', 'p'], ['estimate', -1]], 'subclass': True},
+    {'source': 'free', 'kwargs': [['parent', 'p'], ['predecessors', ['p']]], 'subclass': True, 'op': 'ctor'},
+    {'source': 'free', 'kwargs': [['children', ['free']], ['successors', ['free']]], 'subclass': True, 'op': 'ctor'},
+    {'source': 'free', 'kwargs': [['parent', 'p'], ['estimate', 3]], 'subclass': True},      # control: accepted
 ]
 
 
@@ -42,7 +48,7 @@ def clone_probe(ctx):
         stat['raised'] += 1
         if o['before'] != o['after']:
             ctx.failure('C15/clone/rejected-keyword-leaves-the-clone-attached',
-                        'Task.clone(%s) raised %s and changed the relations of existing tasks' % (
+                        '%s(%s) raised %s and changed the relations of existing tasks' % ('Task' if c.get('op') == 'ctor' else 'Task.clone', 
                             ', '.join('%s=%r' % (k, v) for k, v in c['kwargs']), o.get('exc')), {'case': c, 'observed': o})
     return stat
 
